@@ -118,6 +118,16 @@ impl<'a> Interpreter<'a> {
         }
     }
 
+    /// An interpreter for a nested evaluation (a macro body over fresh bindings). It continues
+    /// the depth count of `self`, so nesting through macro bodies is bounded like any other.
+    pub fn child<'b>(&self, cel: &'b CelContext, bindings: &'b BindContext) -> Interpreter<'b> {
+        Interpreter {
+            cel: Some(cel),
+            bindings: Some(bindings),
+            depth: ScopedCounter::starting_at(self.depth.count()),
+        }
+    }
+
     pub fn empty() -> Interpreter<'a> {
         Interpreter {
             cel: None,
